@@ -100,7 +100,8 @@ def check(ctx):
         if i % 4 == 0:
             rnd += random_sl(ctx.rng, ["sl", "slxx"][(i // 4) % 2], ctx.rng.choice([2, 3, 4, 8]), 60)
     # histories larger than 64 KiB (byte offsets that do not fit 16 bits) and lines longer than 255 characters
-    for i, (cap, depth) in enumerate([(1024, 80), (300, 250)] + ([(4096, 20), (70, 1000)] if ctx.thorough else [])):
+    # ... and history depths around 2^8 (the selectors were 8-bit counters: depth 256 divided by zero, deeper ones were cut)
+    for i, (cap, depth) in enumerate([(1024, 80), (300, 250), (6, 255), (6, 256), (6, 257)] + ([(4096, 20), (70, 1000), (8, 512), (7, 300)] if ctx.thorough else [])):
         rnd += big_history(ctx.rng, ["c", "xx"][i % 2], cap, depth)
         rnd += big_history(ctx.rng, ["xx", "c"][i % 2], cap, depth)
     t1 = ctx.drive(drv, script, "term_cover")
